@@ -17,8 +17,19 @@ pub fn create_vm_map() -> Box<dyn VMMap + Send + Sync> {
     Box::new(map32::Map32::new())
 }
 
+/// Verification hooks: factories consulted when the global `VM_MAP` / `MMAPPER` singletons are
+/// first used, so that a harness can supply small implementations of the public traits.
+#[cfg(mmtk_verif)]
+pub static mut VERIF_VM_MAP_FACTORY: Option<fn() -> Box<dyn VMMap + Send + Sync>> = None;
+#[cfg(mmtk_verif)]
+pub static mut VERIF_MMAPPER_FACTORY: Option<fn() -> Box<dyn Mmapper>> = None;
+
 #[cfg(target_pointer_width = "64")]
 pub fn create_vm_map() -> Box<dyn VMMap + Send + Sync> {
+    #[cfg(mmtk_verif)]
+    if let Some(f) = unsafe { VERIF_VM_MAP_FACTORY } {
+        return f();
+    }
     if !vm_layout().force_use_contiguous_spaces {
         Box::new(map32::Map32::new())
     } else {
@@ -27,6 +38,10 @@ pub fn create_vm_map() -> Box<dyn VMMap + Send + Sync> {
 }
 
 pub fn create_mmapper() -> Box<dyn Mmapper> {
+    #[cfg(mmtk_verif)]
+    if let Some(f) = unsafe { VERIF_MMAPPER_FACTORY } {
+        return f();
+    }
     // TODO: Select a MapStateStorage based on the actuall address space size.
     // For example, choose ByteMapStateStorage for 39-bit or less virtual space.
 
